@@ -105,13 +105,14 @@ type Run struct {
 	mutexes     map[*Slot]*mutexState
 	timerBySlot map[*Slot]*timerEnv
 	clock       int
+	ordS, ordU  *ordGraph
 
 	outcome Outcome
 	finding *Finding
 	errMsg  string
 
 	// stats
-	qFeas, qVC, vcRewrite, vcSolver int
+	qFeas, qVC, vcRewrite, vcSolver, vcInherited int
 }
 
 type observeRec struct {
@@ -158,12 +159,20 @@ func (r *Run) known(c *Term) (bool, bool) {
 		if v, ok := r.atoms[c.args[0].id]; ok {
 			return !v, true
 		}
+		if v, ok := r.ordKnown(c.args[0]); ok {
+			return !v, true
+		}
+		return false, false
+	}
+	if v, ok := r.ordKnown(c); ok {
+		return v, true
 	}
 	return false, false
 }
 
 func (r *Run) note(c *Term, val bool) {
 	r.atoms[c.id] = val
+	r.ordNote(c, val)
 	if c.op == OpBNot {
 		r.note(c.args[0], !val)
 		return
@@ -195,10 +204,7 @@ func (r *Run) checkWith(c *Term) SatResult {
 	ref := r.w.pr.Ref(c)
 	s := r.w.sol
 	s.Raw(r.w.pr.Flush())
-	s.Push()
-	s.Assert(ref)
-	res, msg := s.Check()
-	s.Pop()
+	res, msg := s.CheckAssuming(ref)
 	if res == Unknown {
 		r.abort(OInconclusive, "solver: "+msg)
 	}
@@ -358,23 +364,33 @@ func (r *Run) vassert(c *Term, label string) {
 		r.vcRewrite++
 		return
 	}
+	if len(r.log) < len(r.prefix) {
+		// still inside the replayed prefix: the path that spawned this one met the same
+		// assertion under the same path condition and discharged it
+		r.vcInherited++
+		r.note(c, true)
+		return
+	}
 	r.vcSolver++
 	r.qVC++
 	nc := r.tt.Not(c)
 	ref := r.w.pr.Ref(nc)
 	s := r.w.sol
 	s.Raw(r.w.pr.Flush())
-	s.Push()
-	s.Assert(ref)
-	res, msg := s.Check()
+	res, msg := s.CheckAssuming(ref)
 	if res == Unknown {
-		s.Pop()
 		r.abort(OInconclusive, "solver (VC "+label+"): "+msg)
 	}
 	if res == Unsat {
-		s.Pop()
 		r.note(c, true)
 		return
+	}
+	// sat: re-establish the model inside a scope so that values can be read
+	s.Push()
+	s.Assert(ref)
+	if res2, _ := s.Check(); res2 != Sat {
+		s.Pop()
+		r.abort(OInconclusive, "solver (VC "+label+"): sat under assumption but not when asserted")
 	}
 	f := r.extractModel(OViolation, label, "assertion can fail")
 	s.Pop()
